@@ -54,8 +54,11 @@ Definition reload (s : bstore) : res bstore := ctor (Some (bsize s)) (Some (init
 (* ---------- block views (offset, size >= 0) ---------- *)
 
 (* ByteBlock.contents: interval.contents[offset : offset + size] *)
+(* (offset and size are clamped at the number of stored bytes before they become unary naturals: the slice is the same -- lemma
+   block_contents_unclamped -- and a block of size 2^64 - 1 can be evaluated) *)
 Definition block_contents (s : bstore) (off size : Z) : list Z :=
-  firstn (Z.to_nat size) (skipn (Z.to_nat off) (bbytes s)).
+  let n := zlen (bbytes s) in
+  firstn (Z.to_nat (Z.min size n)) (skipn (Z.to_nat (Z.min off n)) (bbytes s)).
 (* ByteBlock.address *)
 Definition block_address (addr : option Z) (off : Z) : option Z :=
   match addr with Some a => Some (a + off) | None => None end.
